@@ -11,10 +11,7 @@ fn body_clear(mut c: LruCache<u8, SV, BH>) {
     assert!(c.seal.get().next == c.seal && c.seal.get().prev == c.seal);
     assert!(c.capacity() >= cap);
     // usable afterwards
-    let u = UnhingedEntry::new(5u8, SV(2));
-    c.current_size += u.size();
-    let e = Entry::new(u, c.seal, c.seal.get().next);
-    c.insert_untracked(e);
+    link_new(&mut c, UnhingedEntry::new(5u8, SV(2)));
     coherent(&c);
     assert!(c.len() == 1 && order(&c).0[0] == 5);
 }
